@@ -386,3 +386,52 @@ Proof.
   - vm_compute. discriminate.
   - eexists. vm_compute. reflexivity.
 Qed.
+
+(* ---------------------------------------------------------------- ACCEPTED => rt_ok (gap (2) of
+   the level text closed for the WHERE clause): [parse_check] (Model/ParseCheck.v) is the twin of
+   what Optimizer.init / buildFinalPlan do with a query TEXT before the storage is touched --
+   Lexer.Split, Parser.Parse (syntax, the mid-parse tests, Validate / Check), the call validation,
+   the plan tests.  For EVERY text it accepts, the checked WHERE tree (SELECT and DELETE; the tree
+   the statement keeps, alias names resolved to references) has the shape print_parse needs.
+   Proved from the checker twin (Proofs/AcceptedShapeProofs.v, checked_shape): checkWithIn lets
+   only a list, a call or a reference stand right of IN; FunctionCallExpr.Check wants a name as
+   head; FieldAccessExpr.Check refuses a Boolean (so a NotExpr) on its left; `!` is no binary
+   operator; and the parser only builds lists right of IN / BETWEEN (parse_image). *)
+From KV Require Model.Value Model.Checker Model.ParseCheck Proofs.AcceptedShapeProofs.
+
+Theorem accepted_where_rt_ok :
+  forall (fo : Value.fops) (re : string -> string -> Value.res bool) (fmt_v : Value.F fo -> string)
+         q s c agg w,
+  ParseCheck.parse_check fo re fmt_v q = ParseCheck.PCOk s c agg ->
+  AcceptedShapeProofs.cstmt_where c = Some w -> rt_ok w = true.
+Proof. exact AcceptedShapeProofs.accepted_where_rt_ok_thm. Qed.
+Print Assumptions accepted_where_rt_ok.
+
+(* hence: for every accepted statement text, printing its filter, LEXING the print and parsing
+   the tokens gives the filter back (positions and alias references apart) -- provided the leaves
+   print faithfully ([txt_ok]: a string literal written between double quotes may contain ', which
+   is the documented exclusion; alias names containing a backtick cannot be written at all) *)
+Theorem accepted_filter_reparses :
+  forall (fo : Value.fops) (re : string -> string -> Value.res bool) (fmt_v : Value.F fo -> string)
+         q s c agg w,
+  ParseCheck.parse_check fo re fmt_v q = ParseCheck.PCOk s c agg ->
+  AcceptedShapeProofs.cstmt_where c = Some w -> txt_ok w = true ->
+  exists w', parse_expr_top (lex (render_text w)) = POk w' [] /\ erase w' = erase w.
+Proof.
+  intros fo re fmt_v q s c agg w H Hw Ht. apply print_parse_text; [|exact Ht].
+  exact (accepted_where_rt_ok fo re fmt_v q s c agg w H Hw).
+Qed.
+Print Assumptions accepted_filter_reparses.
+
+Example accepted_filter_reparses_nonvacuous :
+  forall (fo : Value.fops) (re : string -> string -> Value.res bool) (fmt_v : Value.F fo -> string),
+  exists s c w,
+    ParseCheck.parse_check fo re fmt_v
+      "select key as k, upper(k) as u where u in ('A', 'B') & !(split(value, ',')[0] between 'a' and k) order by k limit 3"
+      = ParseCheck.PCOk s c false /\
+    AcceptedShapeProofs.cstmt_where c = Some w /\ txt_ok w = true /\ rt_ok w = true /\
+    render_text w = "((`u` in ('A', 'B')) & !((split(VALUE, ',')[0] BETWEEN 'a' AND `k`)))".
+Proof.
+  intros fo re fmt_v. eexists. eexists. eexists.
+  split; [vm_compute; reflexivity|]. split; [reflexivity|]. repeat split; vm_compute; reflexivity.
+Qed.
